@@ -563,6 +563,26 @@ func nonZeroByConstruction(v ssa.Value, depth int) bool {
 				}
 			}
 		}
+		// a module helper every return of which is non-zero by construction
+		if h := x.Common().StaticCallee(); h != nil && h.Blocks != nil && isModFunc(h) && h.Signature.Results().Len() == 1 {
+			n := 0
+			for _, hb := range h.Blocks {
+				if ret, ok := lastInstr(hb).(*ssa.Return); ok {
+					n++
+					if !nonZeroByConstruction(retResults(ret)[0], depth+1) {
+						return false
+					}
+				}
+			}
+			return n > 0
+		}
+	case *ssa.Phi:
+		for _, e := range x.Edges {
+			if !nonZeroByConstruction(e, depth+1) {
+				return false
+			}
+		}
+		return len(x.Edges) > 0
 	case *ssa.UnOp:
 		if u := unwrapLocal(x); u != ssa.Value(x) {
 			return nonZeroByConstruction(u, depth+1)
@@ -596,36 +616,35 @@ func checkPtrNonEmpty(p *Prog, r *Report) {
 		}
 		return false
 	}
+	g := p.ModGraph()
 	for _, fn := range p.FuncsInPkg(pkgSender) {
 		for _, b := range fn.Blocks {
 			for _, in := range b.Instrs {
 				ia, ok := in.(*ssa.IndexAddr)
-				if !ok || !fromPtr(ia.X) {
+				if !ok {
 					continue
 				}
-				nonEmpty := false
-				for _, f := range FactsAt(ia) {
-					bo, ok := f.Cond.(*ssa.BinOp)
-					if !ok {
-						continue
+				from := fromPtr(ia.X)
+				if !from {
+					// a parameter bound to a window slice at some call site
+					base := ia.X
+					for i := 0; i < 4; i++ {
+						if sl, ok := base.(*ssa.Slice); ok {
+							base = sl.X
+						}
 					}
-					lc, ok := bo.X.(*ssa.Call)
-					if !ok {
-						continue
-					}
-					bi, ok := lc.Common().Value.(*ssa.Builtin)
-					if !ok || bi.Name() != "len" || lc.Common().Args[0] != ia.X {
-						continue
-					}
-					k, isK := constInt(bo.Y)
-					op := bo.Op
-					if !f.Val {
-						op = negOp(op)
-					}
-					if isK && ((op == token.NEQ && k == 0) || (op == token.GTR && k >= 0) || (op == token.GEQ && k >= 1)) {
-						nonEmpty = true
+					if _, isP := base.(*ssa.Parameter); isP {
+						for _, root := range g.paramRoots(base, 0) {
+							if fromPtr(root) {
+								from = true
+							}
+						}
 					}
 				}
+				if !from {
+					continue
+				}
+				nonEmpty, _ := minLenEstablished(ia.X, 1, ia, 0)
 				r.Cond(nonEmpty, rule, funcKey(fn)+" indexes a window slice", p.Pos(ia.Pos()), "element access on the result of ptr() without a dominating len(...) != 0 test: an empty file with checksums (or block length 0) from the peer panics the sender")
 			}
 		}
